@@ -20,6 +20,6 @@ Task: make ONE small, realistic change (the kind of bug a maintainer could plaus
 Deliver, inside {wt}:
   1. the change itself, left UNCOMMITTED in the worktree (so that `git -C {wt} diff` shows exactly your change);
   2. a demonstration file {wt}/demo_{p['id']}.py: a small standalone Python program (or pytest file) that exits non-zero / fails WITH your change and exits 0 / passes WITHOUT it (i.e. on the unmodified code); it should exercise the real cylc-flow code (unit-level use of the real classes is fine; no network);
-  3. verify both directions yourself (use `git stash` / `git stash pop` in the worktree to compare), and run the relevant existing tests with your change to confirm they still pass.
+  3. verify both directions yourself (NEVER use `git stash`: the stash is shared with other worktrees and other workers use it concurrently; instead save your change with `git diff > /tmp/{p['id']}_change.patch`, un-apply it with `git apply -R /tmp/{p['id']}_change.patch` and re-apply it with `git apply /tmp/{p['id']}_change.patch`), and run the relevant existing tests with your change to confirm they still pass.
 
 In your final message report: the diff, what it needs in order to manifest, the exact commands you ran (tests + demo with and without the change) and their outcomes. Keep the change minimal (a few lines).""")
